@@ -46,6 +46,10 @@ def oracle (name : String) (ts : List String) : Option Bool :=
       let (flags, ts) ← pCounted pNat ts
       let (m, ts) ← pB ts; let (o, _) ← pB ts
       pure (decide (RemoveNullFacesSpec (keepFromFlags m.indices (flags.map (· != 0))) m o))
+  | "weld_spec" => do
+      let (nm, ts) ← pTok ts; let (pw, ts) ← pNat ts
+      let (m, ts) ← pB ts; let (o, _) ← pB ts
+      pure (decide (WeldSpec ⟨3, nm⟩ (fun x => weldKey pw (unbits x)) m o))
   | "same_mesh" => do
       let (m, ts) ← pB ts; let (o, _) ← pB ts
       pure (decide (m = o))
